@@ -167,7 +167,7 @@ proof obligation (`no-failing-input-found`); of `g1`–`g13`, 11; of the sixteen
 the translator meeting a construct outside its subset, a lemma or conformance theorem that depended on the spelling of a
 generated definition, or a textual pin. After each batch the translator, the lemmas and the conformance theorems were
 generalised as described in §2.1 and §8 (no check was loosened: every generalisation still rejects the seeded changes of
-§10.1, which were re-run). The four that still alarm are outside what the translator reads and are left so (§9). Current
+§10.1, which were re-run). The three that still alarm are outside what the translator reads and are left so (§9). Current
 state, all fifty-five against the final machinery:
 
 {chr(10).join(htab)}
